@@ -417,3 +417,67 @@ def c18_fusion_sources(sf: int, sa: int, sb: int, same_gene: bool) -> int:
     post: _ >= 0
     """
     return _fusion_sources(sf, sa, sb, same_gene)
+
+
+# ------------------------------------------------------------------ summarize == split
+def _summarize(s0, s1, s2, perm, k1):
+    """three peptides: P0 with both header entries, P1 / P2 with one entry each (which one: k1, k2); variant -> source
+    assignment symbolic; the per-source-set totals of summarizeFasta against the database sizes of splitFasta"""
+    from moPepGen.aa.PeptidePoolSummarizer import PeptidePoolSummarizer
+    lv = PERMS[concretize(perm, 0, 5)]
+    s0, s1, s2 = concretize(s0, 0, 2), concretize(s1, 0, 2), concretize(s2, 0, 2)
+    k1 = concretize(k1, 0, 1)
+    k2 = 1 - k1
+    label_map = LabelSourceMapping({'G1': {'SNV-1-A-T': SRC[s0]},
+                                    'G2': {'INDEL-5-AA-A': SRC[s1], 'SNV-9-C-G': SRC[s2]}})
+    recs = [AminoAcidSeqRecord(Seq('PEPTIDEK'), _id='a', name='a',
+                               description=VARIANT_PEPTIDE_SOURCE_DELIMITER.join(LABELS)),
+            AminoAcidSeqRecord(Seq('AAAKCCCR'), _id='b', name='b', description=LABELS[k1]),
+            AminoAcidSeqRecord(Seq('GGGK'), _id='c', name='c', description=LABELS[k2])]
+    order = {SRC[i]: lv[i] for i in range(3)}
+    try:
+        summ = PeptidePoolSummarizer(peptides=VariantPeptidePool(set(recs)), label_map=label_map, order=dict(order))
+        summ.count_peptide_source(TX2GENE, set(), 'trypsin')
+        table = summ.summary_table
+        VariantSourceSet.reset_levels()
+        splitter = PeptidePoolSplitter(peptides=VariantPeptidePool(set(recs)), order=dict(order), label_map=label_map)
+        splitter.split(3, [], TX2GENE, set())
+    finally:
+        VariantSourceSet.reset_levels()
+    total = 0
+    for key in table.data:
+        total += table.get_n_total(key)
+        per_misc = 0
+        for m in range(table.max_misc + 1):
+            per_misc += table.get_n_x_misc(key, m)
+        if per_misc != table.get_n_total(key):
+            return -2              # per-miscleavage counts of a row do not add up to its total
+    if total != 3:
+        return -1                  # totals do not add up to the number of peptides
+    sizes = {k: len(v.peptides) for k, v in splitter.databases.items() if v.peptides}
+    rows = {}
+    for key in table.data:
+        name = SPLIT_DATABASE_KEY_SEPARATER.join(sorted(key, key=lambda n: order[n]))
+        rows[name] = table.get_n_total(key)
+    if rows != sizes:
+        return -3                  # a summary row disagrees with the size of the database splitFasta writes
+    return OK
+
+
+@cond('C18', bounds='3 peptides (one with two header entries, two with one entry each - which one symbolic), 3 variants '
+      'with symbolic source assignment over 3 sources, every priority order; max-groups 3, no additional split',
+      encodes=['moPepGen.aa.PeptidePoolSummarizer.PeptidePoolSummarizer.count_peptide_source / '
+               'NoncanonicalPeptideSummaryTable.add_entry', 'moPepGen.aa.PeptidePoolSplitter.PeptidePoolSplitter.split',
+               'moPepGen.aa.VariantPeptideLabel.VariantPeptideInfo.from_variant_peptide'],
+      codes={-1: 'per-source totals of summarizeFasta do not add up to the number of peptides',
+             -2: 'per-miscleavage counts of a row do not add up to its total',
+             -3: 'a summary row disagrees with the size of the database splitFasta produces for that source set'},
+      timeout=600)
+def c18_summarize_vs_split(s0: int, s1: int, s2: int, perm: int, k1: int) -> int:
+    """
+    pre: 0 <= s0 <= 2 and 0 <= s1 <= 2 and 0 <= s2 <= 2
+    pre: 0 <= perm <= 5
+    pre: 0 <= k1 <= 1
+    post: _ >= 0
+    """
+    return _summarize(s0, s1, s2, perm, k1)
